@@ -1526,7 +1526,32 @@ def to_container(vals, kind, is_matrix=False, integral=False):
         return a.copy()
     raise ValueError(kind)
 
+def gen_c18_inplace(rng):
+    """the situations in which a library that avoids copies would write into the caller's array: a scaled linear policy (alone or
+    under Radius / Clusters), real-valued contexts, training batches whose decisions all name ONE arm (online updates), queries
+    in between, everything passed as C-contiguous float64 numpy arrays"""
+    kind = rng.choice(gen.LIN_KINDS)
+    d = rng.randint(1, 3)
+    arms = rng.sample(range(1, 9), rng.randint(2, 3))
+    hp = 0.0 if kind == "lingreedy" else (1e-9 if kind == "lints" else 0.5)
+    lp = (kind, hp, rng.choice([0.5, 1.0, 2.0]), True, True)
+    rc = lambda n: [[round(rng.uniform(-3, 3), 3) for _ in range(d)] for _ in range(n)]
+    n0 = rng.randint(6, 12)
+    ops = [("fit", [rng.choice(arms) for _ in range(n0)], [float(rng.randint(0, 4)) for _ in range(n0)], rc(n0))]
+    if rng.random() < 0.5:
+        a = rng.choice(arms); n1 = rng.randint(2, 5)
+        ops = [("fit", [a] * n1, [float(rng.randint(0, 4)) for _ in range(n1)], rc(n1))]
+    for _ in range(rng.randint(2, 4)):
+        a = rng.choice(arms); n1 = rng.choice([1, 1, 2, 3])
+        ops.append(("pfit", [a] * n1, [float(rng.randint(0, 4)) for _ in range(n1)], rc(n1)))
+        ops.append(("pexp", rc(rng.randint(1, 3))))
+    npol = rng.choice([None, None, ("radius", 50.0, "euclidean", None)])
+    base = {"arms": arms, "lp": lp, "np": npol, "seed": rng.randint(0, 10**6), "ops": ops, "label": "int", "mode": "tol", "reward_style": "smallint"}
+    return {"base": base, "kind": "np_c"}
+
 def gen_c18(rng, tier):
+    if rng.random() < 0.08:
+        return gen_c18_inplace(rng)
     z = rng.random()
     if z < 0.35:
         base = gen.gen_cf_case(rng, max_ops=5, warm=True, styles=["smallint", "binary", "dyadic"])
